@@ -2,7 +2,7 @@
 # Developer tool (not a check): every behaviour-preserving patch under selftest/refactors*/ must leave all 16 checks silent.
 ALL="C01 C02 C04 C05 C07 C08 C09 C10 C11 C12 C13 C14 C15 C17 C18 C19"
 bad=0
-for d in /verif/selftest/refactors /verif/selftest/refactors2 /verif/selftest/refactors3 /verif/selftest/refactors4 /verif/selftest/refactors5; do
+for d in /verif/selftest/refactors /verif/selftest/refactors2 /verif/selftest/refactors3 /verif/selftest/refactors4 /verif/selftest/refactors5 /verif/selftest/refactors6; do
   for p in $(ls $d/patch_*.diff | sort -V); do
     out=$(/verif/selftest/try_patch.sh $p $ALL 2>&1 | grep -v WARN | grep -v "rc=0")
     if [ -n "$out" ]; then echo "--- $p"; echo "$out" | cut -c1-300; bad=$((bad+1)); fi
